@@ -247,13 +247,13 @@ INFO = dict(
     level_text="Bounded symbolic verification of the shipped classes' own operator methods: three symbolic scores per type (reals, or reals >= 0 "
                "for MaxTimes) plus the shared zero/one objects plus freshly constructed equal values; every instance of the nine semiring laws and "
                "of both star equations over that pool is a z3 obligation valid for ALL score values (max/branches fork in the executor). For Log the "
-               "transcendental functions are uninterpreted: identities, annihilation, both commutativities, multiplicative associativity and both "
-               "distributive laws are proved; additive associativity and the star law of Log are outside.",
+               "scores are log r with r a symbolic positive real (exact log-domain model: numpy's log/exp/log1p/expm1 dispatch to methods that map "
+               "onto rational operations on r), so every law of Log -- additive associativity and both star equations included -- is decided too.",
     level_note="Floats are treated as reals (rounding is outside). Star laws carry the convergence hypothesis (x<1; x<=1 for MaxTimes; x<=0 for MaxPlus). "
                "Trusted: CPython, z3, SNum proxy.",
     design_ref="DESIGN.md section 3 C16",
     explanation="The real operator methods of each shipped semiring class are executed on symbolic scores; z3 proves each law instance for all real values.",
     bounds=dict(types=TYPES, symbolic_values_per_type=3, pool="zero, one, fresh zero, fresh one, x0, x1, x2"),
-    outside=["IEEE rounding", "Log: additive associativity and star law (need exp/log axioms)", "MaxTimes outside scores >= 0"],
+    outside=["IEEE rounding (floats are reals; Log scores are exact logarithms)", "MaxTimes outside scores >= 0", "quick tier: Log triples use the shared zero/one objects and three symbolic values (fresh equal values take part in unary and binary laws only)"],
     assumptions=["scores are reals", "star argument inside the convergence domain"],
 )
